@@ -524,6 +524,8 @@ def strip_try(t):
     t = strip(t)
     if t[0] == "try":
         return strip(t[1])
+    if t[0] == "field" and t[2] == 0 and strip(t[1])[0] == "downcast" and strip(t[1])[2] == "Ok":
+        return strip(strip(t[1])[1])          # the `Ok(v) => Ok(v)` arm of an explicit match: the same payload as `x?`
     return t
 
 
